@@ -75,6 +75,15 @@ CLAIMED["C09"] = (
     "BatchLoader / LoaderGroup averages on integer tomograms (numpy + 3 dask chunkings) compared voxel-wise with the exact rational "
     "means computed in Coq; seeded reproducibility checked on the implementation. Generic poses / order 3 / n_set>1: numeric oracle.",
     "regenerated anchors + Coq theorems (Q, induction, pigeonhole) + in-Coq correspondence")
+CLAIMED["C14"] = (
+    "Theorems (Coq, Q/Z, every template side parity and every rational position): fragment start + output centre = pos/scale (the "
+    "template centre lands on the molecule); exact paste for odd side & integer position and even side & half-integer position "
+    "(sample coordinate = voxel index, start = a - floor((s-1)/2)); the destination slice is the window clipped to the volume with "
+    "an aligned source slice, a window with no overlap is skipped (iff), never an exception; sums are order independent. Tie: all "
+    "scalar expressions of _prep_iterators and make_slice_and_pad regenerated; simulate() on integer templates (sides 1..4), 24 exact "
+    "rotations, half-integer positions, several components, orders 0/1 compared voxel-by-voxel with the Coq model; order "
+    "independence, 2-D projection = sum over z, and load-back through SubtomogramLoader (exact / approximate) by oracle.",
+    "regenerated anchors + Coq theorems + in-Coq voxel correspondence")
 NOT_YET = "machinery for this property is not built yet in this revision (see DESIGN.md §6 for the planned model)"
 
 def main():
